@@ -24,7 +24,7 @@ type condFormResult struct {
 
 func condForm(fn *ssa.Function, startBlock *ssa.BasicBlock, startIdx int,
 	classify func(cond string) (atom string, pol bool, ok bool),
-	outcome func(in ssa.Instruction, b *ssa.BasicBlock, idx int) string, maxAtoms int) (*condFormResult, error) {
+	outcome func(in ssa.Instruction, b *ssa.BasicBlock, idx int, prev *ssa.BasicBlock, val map[string]bool) string, maxAtoms int) (*condFormResult, error) {
 
 	// discover atoms reachable in the region (walk all branches until an outcome)
 	atomSet := map[string]bool{}
@@ -43,7 +43,7 @@ func condForm(fn *ssa.Function, startBlock *ssa.BasicBlock, startIdx int,
 		}
 		for i := idx; i < len(b.Instrs); i++ {
 			in := b.Instrs[i]
-			if outcome(in, b, i) != "" {
+			if outcome(in, b, i, nil, nil) != "" {
 				return nil
 			}
 			if iff, ok := in.(*ssa.If); ok {
@@ -82,6 +82,7 @@ func condForm(fn *ssa.Function, startBlock *ssa.BasicBlock, startIdx int,
 			parts = append(parts, fmt.Sprintf("%s=%d", a, b2i(val[a])))
 		}
 		b, idx := startBlock, startIdx
+		var prev *ssa.BasicBlock
 		steps := 0
 		label := ""
 	walk:
@@ -93,7 +94,7 @@ func condForm(fn *ssa.Function, startBlock *ssa.BasicBlock, startIdx int,
 			next := -1
 			for i := idx; i < len(b.Instrs); i++ {
 				in := b.Instrs[i]
-				if l := outcome(in, b, i); l != "" {
+				if l := outcome(in, b, i, prev, val); l != "" {
 					label = l
 					break walk
 				}
@@ -116,6 +117,7 @@ func condForm(fn *ssa.Function, startBlock *ssa.BasicBlock, startIdx int,
 				}
 				next = 0
 			}
+			prev = b
 			b, idx = b.Succs[next], 0
 		}
 		res.Table[strings.Join(parts, ",")] = label
